@@ -207,3 +207,46 @@ pub fn c03_mirror_opt_clear() {
     cover!(vals[0] != 0, "history starting with a non-zero value (nothing strided)");
     sym::forget(fs);
 }
+
+// @h memw=5 prop=C03 tier=quick kind=proof inst="FlatStack<OwnedRegion<u8>, Vec<(usize,usize)>>: extend / from_iter fed by iterators WITHOUT a useful size hint (filter: lower bound 0)" bounds="2 values of 2 and 1 symbolic bytes through `.filter(|_| true)`; extend onto an empty and onto a non-empty stack; collect" desc="extend and from_iter are repeated copy whatever the iterator's size hint says"
+#[cfg_attr(kani, kani::proof, kani::unwind(6))]
+pub fn c03_extend_unsized_iterator() {
+    type F = FlatStack<OwnedRegion<u8>, Vec<(usize, usize)>>;
+    let a = Bytes::<3>::any_len(2);
+    let b = Bytes::<3>::any_len(1);
+    let mut f = F::default();
+    f.extend([a.as_slice(), b.as_slice()].into_iter().filter(|_| true));
+    assert!(f.len() == 2 && !f.is_empty(), "C03: extend from an iterator with size hint 0 dropped items");
+    assert!(a.same_as(f.get(0)) && b.same_as(f.get(1)), "C03: extend from an iterator with size hint 0 stored other items");
+    f.extend([b.as_slice()].into_iter().filter(|_| true));
+    assert!(f.len() == 3 && b.same_as(f.get(2)) && a.same_as(f.get(0)), "C03: extend onto a non-empty stack is not repeated copy");
+    let g: F = [a.as_slice(), b.as_slice()].into_iter().filter(|_| true).collect();
+    assert!(g.len() == 2 && a.same_as(g.get(0)) && b.same_as(g.get(1)), "C03: from_iter of an iterator with size hint 0 is not repeated copy");
+    cover!(true, "end reached");
+    sym::forget((f, g));
+}
+
+// @h memw=6 prop=C03 tier=quick kind=proof inst="FlatStack<ConsecutiveIndexPairs<OwnedRegion<u8>>, IndexOptimized>: extend fed by ANOTHER stack's iterator" bounds="source holds 2 values of 2 and 1 symbolic bytes; target empty, then extended twice" desc="stack-to-stack extend copies every item in order (the index containers' iterators give no size hint)"
+#[cfg_attr(kani, kani::proof, kani::unwind(6))]
+pub fn c03_extend_from_stack() {
+    type F = FlatStack<Cip, IndexOptimized>;
+    let a = Bytes::<3>::any_len(2);
+    let b = Bytes::<3>::any_len(1);
+    let mut src = F::default();
+    src.copy(a.as_slice());
+    src.copy(b.as_slice());
+    let mut f = F::default();
+    f.extend(src.iter());
+    assert!(f.len() == 2, "C03: extend from another stack's iterator dropped items");
+    assert!(a.same_as(f.get(0)) && b.same_as(f.get(1)), "C03: extend from another stack's iterator stored other items");
+    f.extend(&src);
+    assert!(f.len() == 4 && a.same_as(f.get(2)) && b.same_as(f.get(3)) && a.same_as(f.get(0)), "C03: second extend is not repeated copy");
+    let mut n = 0usize;
+    for item in f.iter() {
+        assert!(if n % 2 == 0 { a.same_as(item) } else { b.same_as(item) }, "C03: iteration order differs from copy order");
+        n += 1;
+    }
+    assert!(n == 4, "C03: iteration yields a different number of items than len");
+    cover!(true, "end reached");
+    sym::forget((f, src));
+}
